@@ -265,7 +265,7 @@ impl Scenario for DhcpSc {
 
 pub fn cfgs(tier: &str) -> Vec<(DhcpCfg, Bounds)> {
     let q = tier == "quick";
-    let wall = Duration::from_secs(if q { 12 } else { 300 });
+    let wall = Duration::from_secs(if q { 150 } else { 900 });
     let mut v = vec![];
     for n in 1..=3usize {
         v.push((
